@@ -1,8 +1,58 @@
 package repository
 
+import (
+	"context"
+	"fmt"
+
+	"github.com/restic/restic/internal/repository/index"
+	"github.com/restic/restic/internal/repository/pack"
+	"github.com/restic/restic/internal/restic"
+)
+
 // Exported test hooks for /verif.  This file is not part of restic; it is added
 // to the package at build time through the /verif overlay (add-only).
 
 // VerifSetPackSize overrides the target pack size (restic's public minimum is 4 MiB;
 // small packs let tiny fixtures produce several packs and concurrent uploads).
 func VerifSetPackSize(r *Repository, n uint) { r.opts.PackSize = n }
+
+// VerifBreakIndexEntry rewrites the index of r so that the entry of blob h in pack packID carries a
+// length changed by delta (everything else is kept): a damaged index over an intact pack file (C34).
+func VerifBreakIndexEntry(ctx context.Context, r *Repository, packID restic.ID, h restic.BlobHandle, delta int) error {
+	packs := restic.NewIDSet()
+	if err := r.ListBlobs(ctx, func(pb restic.PackBlob) { packs.Insert(pb.PackID()) }); err != nil {
+		return err
+	}
+	all := map[restic.ID]pack.Blobs{}
+	for pbs := range r.listPacksFromIndex(ctx, packs) {
+		all[pbs.PackID] = pbs.Blobs
+	}
+	old := r.idx.IDs()
+	idx := index.NewIndex()
+	found := false
+	for id, blobs := range all {
+		blobs = append(pack.Blobs{}, blobs...)
+		if id == packID {
+			for i := range blobs {
+				if blobs[i].BlobHandle == h {
+					blobs[i].Length = uint(int(blobs[i].Length) + delta)
+					found = true
+				}
+			}
+		}
+		idx.StorePack(id, blobs)
+	}
+	if !found {
+		return fmt.Errorf("VerifBreakIndexEntry: blob %v is not indexed in pack %v", h, packID.Str())
+	}
+	idx.Finalize()
+	if _, err := idx.SaveIndex(ctx, &internalRepository{r}); err != nil {
+		return err
+	}
+	for id := range old {
+		if err := (&internalRepository{r}).RemoveUnpacked(ctx, restic.IndexFile, id); err != nil {
+			return err
+		}
+	}
+	return nil
+}
